@@ -19,6 +19,10 @@ names = sorted(d for d in os.listdir(os.path.join(ROOT, 'seeded')) if os.path.ex
 if args:
     names = [n for n in names if any(a in n for a in args)]
 base = tempfile.mkdtemp(prefix='seedmatrix-')
+# the checks are run from a snapshot of /verif taken now, so that edits made while the matrix runs do not leak into it
+SNAP = os.path.join(base, 'verif-snapshot')
+shutil.copytree(ROOT, SNAP, ignore=shutil.ignore_patterns('.git', '.cache', 'evidence', 'seeded', '__pycache__'))
+os.makedirs(os.path.join(SNAP, 'seeded'), exist_ok=True)
 
 
 def one(name):
@@ -34,7 +38,7 @@ def one(name):
         env = dict(os.environ, VERIF_REPO=wt, VERIF_CACHE=os.path.join(wt, '.verif-cache'), VERIF_EVIDENCE=os.path.join(wt, '.verif-evidence'))
         os.makedirs(env['VERIF_EVIDENCE'], exist_ok=True)
         for p in props:
-            r = subprocess.run([os.path.join(ROOT, 'bin', 'check'), p, '--tier', 'quick'], capture_output=True, text=True, env=env)
+            r = subprocess.run([os.path.join(SNAP, 'bin', 'check'), p, '--tier', 'quick'], capture_output=True, text=True, env=env)
             rules = sorted(set(re.findall(r'^   violated ([RO][0-9.a-z]+)', r.stdout, re.M)))
             if r.returncode == 1:
                 out[p] = rules or ['?']
